@@ -3,9 +3,14 @@
 package malloc
 
 import (
+	"bytes"
 	"context"
+	"fmt"
+	"html/template"
 
+	"wa-lang.org/wa/internal/3rdparty/wazero"
 	"wa-lang.org/wa/internal/3rdparty/wazero/api"
+	"wa-lang.org/wa/internal/wat/watutil"
 )
 
 // VerifC10Mem exposes the linear memory of the wazero instance running malloc.wat.
@@ -25,3 +30,67 @@ func VerifC10Close(p *Heap) {
 		p.wazeroRuntime.Close(context.Background())
 	}
 }
+
+// VerifC10Helper runs malloc.wat (template filled from cfg) with additional exports of internal
+// helper functions, so that the regenerated Lean term of these functions can be compared with wazero.
+type VerifC10Helper struct {
+	rt  wazero.Runtime
+	mod api.Module
+}
+
+func VerifC10NewHelper(cfg *Config, names []string) (h *VerifC10Helper, err error) {
+	defer func() {
+		if r := recover(); r != nil {
+			err = fmt.Errorf("%v", r)
+		}
+	}()
+	var buf bytes.Buffer
+	buf.WriteString("(module $malloc\n")
+	if err := template.Must(template.New("wat").Parse(malloc_wat)).Execute(&buf, cfg); err != nil {
+		return nil, err
+	}
+	for _, n := range names {
+		fmt.Fprintf(&buf, "\n(export %q (func $%s))", "verif."+n, n)
+	}
+	buf.WriteString("\n)")
+	wasmBytes, err := watutil.Wat2Wasm("malloc.wat", buf.Bytes())
+	if err != nil {
+		return nil, err
+	}
+	ctx := context.Background()
+	rt := wazero.NewRuntime(ctx)
+	b := rt.NewHostModuleBuilder("env")
+	b = b.NewFunctionBuilder().WithFunc(func(ctx context.Context, m api.Module, v int32) {}).Export("print_i32")
+	b = b.NewFunctionBuilder().WithFunc(func(ctx context.Context, m api.Module, v1, v2 int32) {}).Export("print_i32_i32")
+	if _, err := b.Instantiate(ctx, rt); err != nil {
+		rt.Close(ctx)
+		return nil, err
+	}
+	mod, err := rt.InstantiateModuleFromBinary(ctx, wasmBytes)
+	if err != nil {
+		rt.Close(ctx)
+		return nil, err
+	}
+	return &VerifC10Helper{rt: rt, mod: mod}, nil
+}
+
+func (h *VerifC10Helper) Call(name string, args ...int32) (res []int32, err error) {
+	fn := h.mod.ExportedFunction("verif." + name)
+	if fn == nil {
+		return nil, fmt.Errorf("no such export %s", name)
+	}
+	in := make([]uint64, len(args))
+	for i, a := range args {
+		in[i] = api.EncodeI32(a)
+	}
+	out, err := fn.Call(context.Background(), in...)
+	if err != nil {
+		return nil, err
+	}
+	for _, o := range out {
+		res = append(res, api.DecodeI32(o))
+	}
+	return res, nil
+}
+
+func (h *VerifC10Helper) Close() { h.rt.Close(context.Background()) }
